@@ -426,7 +426,7 @@ def class_case(item):
 # lattices
 
 POVS = (0.0, 0.25, 0.5, 0.75)
-FSS = (0.01, 1.0, 100.0)
+FSS = (0.01, 1.0, 102.4)
 
 
 def lattice(thorough):
@@ -488,7 +488,7 @@ def delay_lattice(thorough):
                     for nseg in (60, 100):
                         if nxseg == 4096 and nseg == 100:
                             continue
-                        for fs in (0.01, 100.0):
+                        for fs in (0.01, 102.4):
                             for method in ("per", "cor"):
                                 for (n, s, c) in (places if nxseg <= 256 else places[1:3]):
                                     out.append((len(out), n, s, c, nxseg, d, g, pov, nseg, fs, method))
